@@ -217,6 +217,11 @@ def coq_makefile():
             raise RuntimeError(r.stdout.decode())
 
 
+def gen_params(srcdir):
+    r = run([sys.executable, os.path.join(VERIF, "tools", "extract_params.py"), srcdir])
+    return r.returncode == 0
+
+
 def coq_props(pid, extra_targets=(), timeout=1500):
     """Recompile Props/Properties_<pid>.vo (forcing it) and whatever it depends on.
 
@@ -228,15 +233,22 @@ def coq_props(pid, extra_targets=(), timeout=1500):
     if os.path.exists(vo):
         os.remove(vo)
     targets = ["Props/Properties_%s.vo" % pid] + list(extra_targets)
+    tie = os.path.join(COQ, "Tie", "Tie_%s.v" % pid)
+    if os.path.exists(tie):
+        if os.path.exists(tie + "o"):
+            os.remove(tie + "o")
+        targets.append("Tie/Tie_%s.vo" % pid)
     try:
         r = run(["make", "-k", "-j16"] + targets, cwd=COQ, timeout=timeout)
         out = r.stdout.decode(errors="replace")
-        ok = r.returncode == 0 and os.path.exists(vo)
+        ok = r.returncode == 0 and os.path.exists(vo) and (not os.path.exists(tie) or os.path.exists(tie + "o"))
     except subprocess.TimeoutExpired as e:
         out = (e.stdout or b"").decode(errors="replace") + "\nTIMEOUT"
         ok = False
     src = open(vfile).read()
     theorems = re.findall(r"^\s*Theorem\s+([A-Za-z0-9_']+)", src, re.M)
+    if os.path.exists(tie):
+        theorems += ["Tie." + t for t in re.findall(r"^\s*Lemma\s+([A-Za-z0-9_']+)", open(tie).read(), re.M)]
     assumptions = {}
     # Print Assumptions output: "Closed under the global context" or "Axioms:\n..."
     blocks = re.split(r"(?=^Closed under the global context|^Axioms:)", out, flags=re.M)
@@ -270,8 +282,10 @@ def build_driver(pid):
         raise RuntimeError("coq extraction build failed:\n" + r.stdout.decode(errors="replace")[-3000:])
     ml = os.path.join(COQ, "extracted_%s.ml" % pid)
     exe = os.path.join(d, "driver")
-    srcs = [ml, os.path.join(VERIF, "extract", "conv.ml"),
-            os.path.join(VERIF, "extract", "%s_driver.ml" % pid)]
+    srcs = [ml, os.path.join(VERIF, "extract", "conv.ml")]
+    if re.search(r"^type z =", open(ml).read(), re.M):
+        srcs.append(os.path.join(VERIF, "extract", "conv_z.ml"))
+    srcs.append(os.path.join(VERIF, "extract", "%s_driver.ml" % pid))
     if os.path.exists(exe) and all(os.path.getmtime(exe) > os.path.getmtime(s) for s in srcs):
         return exe
     allml = os.path.join(d, "all.ml")
@@ -387,9 +401,10 @@ class Check:
             log("  " + what)
 
     # -- proofs -------------------------------------------------------------------------
-    def proofs(self, extra_targets=(), ties=()):
+    def proofs(self, extra_targets=(), ties=(), srcdir=None):
         """Recompile the property theorems; a failure is a violation (searched by caller)."""
         bad = coq_forbidden_scan()
+        gen_params(srcdir or REPO)
         res = coq_props(self.pid, extra_targets=extra_targets)
         nth = len(res["theorems"]) + len(ties)
         self.cov["obligations"] = nth
